@@ -3,6 +3,8 @@ C16 — max-min allocations are fair.  Theorems about the model lean/SgVerif/Lmm
 (invariants: lean/SgVerif/Lmm/Lemmas.lean, lean/SgVerif/Lmm/Fair.lean); ∀ well-formed systems, ∀ fuel, ∀ initial values.
 -/
 import SgVerif.Lmm.Fair
+import SgVerif.Lmm.Unique
+import SgVerif.Lmm.SpecLemmas
 import SgVerif.C15.Props
 namespace SgVerif.C16
 open SgVerif.Lmm
@@ -42,20 +44,13 @@ theorem maxmin_all_fixed (S : Sys) (hwf : WF S) (val0 : Nat → Rat) (fuel : Nat
       have : 0 < e.2 / (S.var e.1).penalty := div_pos hw hp
       linarith
 
-/-
-Full-strength statement (C16, first sentence): for every well-formed system (SHARED and FATPIPE constraints)
-  every enabled consuming variable is at its bound or uses a saturated constraint (load = capacity) on which its
-  penalty-weighted rate value·penalty is the largest.
-Proved below for systems whose active constraints are all summing (SHARED) ones: `maxmin_bottleneck_partial`.
-Missing for FATPIPE constraints: the invariant "usage_ of a FATPIPE constraint in the light table is attained by an
-unfixed element" (the model proves `usage_ ≥ w/penalty` for the unfixed consumers, enough for feasibility, not that
-the maximum is attained, which is what makes `max w·value = capacity` when the constraint saturates).
--/
-
-/-- **C16, maxmin, exact arithmetic, summing constraints, any variable bounds.**  When `maxmin_solve` returns, every
-variable of an enabled element with positive weight is at its bound, or uses (with positive weight) an active
-constraint whose load Σ w·value equals its capacity and on which no consumer has a larger value·penalty. -/
-theorem maxmin_bottleneck_partial (S : Sys) (hwf : WF S) (hsh : ∀ c ∈ S.active, (S.cnst c).fatpipe = false)
+/-- **C16, maxmin, exact arithmetic, full strength: every well-formed system (SHARED and FATPIPE constraints, any
+variable bounds).**  When `maxmin_solve` returns, every variable of an enabled element with positive weight is at its
+bound, or uses (with positive weight) an active constraint whose `get_load()` — Σ w·value for a summing constraint,
+max w·value for a FATPIPE one — equals its capacity and on which no consumer has a larger value·penalty.
+(The FATPIPE case rests on `InvA`, Lmm/Fat.lean: usage_ of a light FATPIPE constraint is attained by an unfixed
+consumer, which therefore gets `w·value = capacity` when the constraint saturates.) -/
+theorem maxmin_bottleneck (S : Sys) (hwf : WF S)
     (val0 : Nat → Rat) (fuel : Nat) (st : St) (h : maxminSolve S 0 fuel val0 = some st) :
     ∀ c ∈ S.active, ∀ e ∈ (S.cnst c).elems, 0 < e.2 →
       (0 < (S.var e.1).bound ∧ st.value e.1 = (S.var e.1).bound) ∨
@@ -64,6 +59,7 @@ theorem maxmin_bottleneck_partial (S : Sys) (hwf : WF S) (hsh : ∀ c ∈ S.acti
         ∀ e'' ∈ (S.cnst c').elems, 0 < e''.2 →
           st.value e''.1 * (S.var e''.1).penalty ≤ st.value e.1 * (S.var e.1).penalty := by
   have hfixed := maxmin_all_fixed S hwf val0 fuel st h
+  have hfeas := (C15.maxmin_feasible S hwf val0 fuel st h).1
   unfold maxminSolve at h
   have hi := init_rinv S hwf val0
   have hbn0 : ∃ M, BN S M (initAll S 0 val0).fixed (initAll S 0 val0).value ∧
@@ -72,28 +68,51 @@ theorem maxmin_bottleneck_partial (S : Sys) (hwf : WF S) (hsh : ∀ c ∈ S.acti
     · intro u hu; rw [hi.2.2] at hu; simp at hu
     · intro u hu; rw [hi.2.2] at hu; simp at hu
     · intro c hc; simp only [zero_mul]; exact le_of_lt (hi.1.l.li_pos c hc).1
-  obtain ⟨⟨M, hBN⟩, hR, _⟩ := loop_bn S hwf hsh fuel _ st hi.1 hbn0 h
+  obtain ⟨⟨M, hBN⟩, hR, _⟩ := loop_bn S hwf fuel _ st hi.1 (init_invA S hwf val0) hbn0 h
   intro c hc e he hw
   have hfx := (hfixed c hc e he hw).1
   rcases hBN.recd e.1 hfx with hb | ⟨c', hc', hmem, hcl, hsat, hmax⟩
   · exact Or.inl hb
   · right
     refine ⟨c', hc', hmem, ?_, hmax⟩
-    rw [C15.load_shared S st.value c' (hsh c' hc')]
-    have : sumBy (fun e => if 0 < e.2 then e.2 * st.value e.1 else 0) (S.cnst c').elems =
-        fixedLoad S st.fixed st.value c' := by
-      unfold fixedLoad
-      apply sumBy_congr
-      intro e' he'
-      have hw' := hwf.el_w c' hc' e' he'
-      cases hf' : st.fixed e'.1 with
-      | false => rw [hR.g.val0 c' hc' e' he' hf']; simp
-      | true =>
-        by_cases h0 : 0 < e'.2
-        · simp [h0]
-        · have : e'.2 = 0 := by linarith
-          simp [this]
-    rw [this]; linarith
+    rcases hsat with ⟨hfp, hsat⟩ | ⟨hfp, e0, he0, hw0, _, hv0⟩
+    · rw [C15.load_shared S st.value c' hfp]
+      have : sumBy (fun e => if 0 < e.2 then e.2 * st.value e.1 else 0) (S.cnst c').elems =
+          fixedLoad S st.fixed st.value c' := by
+        unfold fixedLoad
+        apply sumBy_congr
+        intro e' he'
+        have hw' := hwf.el_w c' hc' e' he'
+        cases hf' : st.fixed e'.1 with
+        | false => rw [hR.g.val0 c' hc' e' he' hf']; simp
+        | true =>
+          by_cases h0 : 0 < e'.2
+          · simp [h0]
+          · have : e'.2 = 0 := by linarith
+            simp [this]
+      rw [this]; linarith
+    · have h1 := load_fat_ge S st.value c' hfp e0 he0 hw0
+      have h2 := hfeas c' hc'
+      rw [hv0] at h1
+      exact le_antisymm h2 h1
+
+/-- the first-pass statement (summing constraints only) is a corollary -/
+theorem maxmin_bottleneck_partial (S : Sys) (hwf : WF S) (_hsh : ∀ c ∈ S.active, (S.cnst c).fatpipe = false)
+    (val0 : Nat → Rat) (fuel : Nat) (st : St) (h : maxminSolve S 0 fuel val0 = some st) :
+    ∀ c ∈ S.active, ∀ e ∈ (S.cnst c).elems, 0 < e.2 →
+      (0 < (S.var e.1).bound ∧ st.value e.1 = (S.var e.1).bound) ∨
+      ∃ c' ∈ S.active, (∃ e' ∈ (S.cnst c').elems, e'.1 = e.1 ∧ 0 < e'.2) ∧
+        load S st.value c' = (S.cnst c').bound ∧
+        ∀ e'' ∈ (S.cnst c').elems, 0 < e''.2 →
+          st.value e''.1 * (S.var e''.1).penalty ≤ st.value e.1 * (S.var e.1).penalty :=
+  maxmin_bottleneck S hwf val0 fuel st h
+
+/-- non-vacuity of `maxmin_bottleneck` on a mixed system: on `C15.exSys` (SHARED capacity 10 + FATPIPE capacity 4, v0
+bounded by 1) the solver returns v0 = 1 (at its bound), v1 = 4 and v2 = 2: the FATPIPE constraint c1 has
+load = max(2·2, 1·4) = 4 = capacity and v1·1 = v2·2 = 4 is the largest value·penalty on it -/
+example : (maxminSolve C15.exSys 0 4 (fun _ => 0)).map
+    (fun st => (st.value 0, st.value 1, st.value 2, load C15.exSys st.value 1)) = some (1, 4, 2, 4) := by
+  decide +kernel
 
 /-! ### non-vacuity -/
 
@@ -114,6 +133,92 @@ example : (maxminSolve exSh 0 5 (fun _ => 0)).map (fun st => (st.value 0, st.val
 
 example : ∀ c ∈ exSh.active, (exSh.cnst c).fatpipe = false := by
   intro c hc; simp [exSh] at hc; rcases hc with rfl | rfl <;> simp [exSh]
+
+theorem exSh_wf : WF exSh := by
+  constructor
+  · decide
+  · intro c hc; simp [exSh] at hc; rcases hc with rfl | rfl <;> simp [exSh]
+  · intro c hc e he; simp [exSh] at hc
+    rcases hc with rfl | rfl <;> simp [exSh] at he
+    · rcases he with rfl | rfl | rfl <;> simp [exSh]
+    · subst he; simp [exSh]
+  · intro c hc e he; simp [exSh] at hc
+    rcases hc with rfl | rfl <;> simp [exSh] at he
+    · rcases he with rfl | rfl | rfl <;> norm_num
+    · subst he; norm_num
+  · intro v e he
+    by_cases h0 : v = 0
+    · subst h0; simp [exSh] at he; subst he; norm_num
+    · by_cases h1 : v = 1
+      · subst h1; simp [exSh] at he; subst he; norm_num
+      · by_cases h2 : v = 2
+        · subst h2; simp [exSh] at he; rcases he with rfl | rfl <;> norm_num
+        · simp [exSh, h0, h1, h2] at he
+  · intro c hc v hp
+    simp [exSh] at hc
+    by_cases h0 : v = 0
+    · subst h0; rcases hc with rfl | rfl <;> simp [exSh, wOf, sumBy]
+    · by_cases h1 : v = 1
+      · subst h1; rcases hc with rfl | rfl <;> simp [exSh, wOf, sumBy]
+      · by_cases h2 : v = 2
+        · subst h2; rcases hc with rfl | rfl <;> simp [exSh, wOf, sumBy]
+        · simp [exSh, h0, h1, h2] at hp
+
+theorem exSh_wfv : WFV exSh := by
+  constructor
+  · intro c hc e he; simp [exSh] at hc
+    rcases hc with rfl | rfl <;> simp [exSh] at he
+    · rcases he with rfl | rfl | rfl <;> simp [exSh]
+    · subst he; simp [exSh]
+  · intro c hc e he; simp [exSh] at hc
+    rcases hc with rfl | rfl <;> simp [exSh] at he
+    · rcases he with rfl | rfl | rfl <;> simp [exSh]
+    · subst he; simp [exSh]
+
+/-! ### uniqueness; the model computes the reference allocation -/
+
+/-- what `maxmin_solve` returns is a weighted max-min fair allocation in the sense of `FairAlloc` (capacities, variable
+bounds, bottleneck condition) — every well-formed system -/
+theorem maxmin_fair (S : Sys) (hwf : WF S) (val0 : Nat → Rat) (fuel : Nat) (st : St)
+    (h : maxminSolve S 0 fuel val0 = some st) : FairAlloc S st.value := by
+  have hf := C15.maxmin_feasible S hwf val0 fuel st h
+  exact ⟨hf.1, fun c hc e he _ hb => (hf.2.1 c hc e he).2 hb, maxmin_bottleneck S hwf val0 fuel st h⟩
+
+/-- **C16 `maxmin_unique_shared`, full strength (variable bounds allowed).**  On a well-formed system whose active
+constraints are all summing (SHARED): (1) the allocation returned by `maxmin_solve` is weighted max-min fair;
+(2) it is the *unique* one: every allocation `y` that respects the capacities and the variable bounds and satisfies the
+bottleneck condition gives every consumer the same rate; (3) it equals the water-filling reference `Spec.alloc`
+(an independent 60-line definition, Lmm/Spec.lean) on every consumer. -/
+theorem maxmin_unique_shared (S : Sys) (hwf : WF S) (hwv : WFV S) (hsh : ∀ c ∈ S.active, (S.cnst c).fatpipe = false)
+    (val0 : Nat → Rat) (fuel : Nat) (st : St) (h : maxminSolve S 0 fuel val0 = some st) :
+    FairAlloc S st.value ∧
+    (∀ y, FairAlloc S y → ∀ c ∈ S.active, ∀ e ∈ (S.cnst c).elems, 0 < e.2 → y e.1 = st.value e.1) ∧
+    (∀ c ∈ S.active, ∀ e ∈ (S.cnst c).elems, 0 < e.2 → st.value e.1 = Spec.alloc S e.1) := by
+  have hm := maxmin_fair S hwf val0 fuel st h
+  refine ⟨hm, fun y hy => fairAlloc_unique S hwf hsh y st.value hy hm, ?_⟩
+  exact fairAlloc_unique S hwf hsh st.value (Spec.alloc S) hm (Spec.alloc_fair S hwf hwv hsh)
+
+/-- (2) alone does not need the `variable_set` facts `WFV` -/
+theorem maxmin_unique_shared_wf (S : Sys) (hwf : WF S) (hsh : ∀ c ∈ S.active, (S.cnst c).fatpipe = false)
+    (val0 : Nat → Rat) (fuel : Nat) (st : St) (h : maxminSolve S 0 fuel val0 = some st) :
+    ∀ y, FairAlloc S y → ∀ c ∈ S.active, ∀ e ∈ (S.cnst c).elems, 0 < e.2 → y e.1 = st.value e.1 :=
+  fun y hy => fairAlloc_unique S hwf hsh y st.value hy (maxmin_fair S hwf val0 fuel st h)
+
+/-- with termination (`C15.maxmin_terminates`): the solver returns, and returns the reference allocation -/
+theorem maxmin_total_eq_spec (S : Sys) (hwf : WF S) (hwv : WFV S) (hsh : ∀ c ∈ S.active, (S.cnst c).fatpipe = false)
+    (nv : Nat) (hnv : ∀ c ∈ S.active, ∀ e ∈ (S.cnst c).elems, e.1 < nv) (val0 : Nat → Rat) :
+    ∃ st, maxminSolve S 0 (nv + 1) val0 = some st ∧
+      ∀ c ∈ S.active, ∀ e ∈ (S.cnst c).elems, 0 < e.2 → st.value e.1 = Spec.alloc S e.1 := by
+  obtain ⟨st, hs, _⟩ := C15.maxmin_total_feasible S hwf nv hnv val0
+  exact ⟨st, hs, (maxmin_unique_shared S hwf hwv hsh val0 (nv + 1) st hs).2.2⟩
+
+/-- non-vacuity: `exSh` (two summing constraints, one bounded variable) meets all hypotheses; reference = (1, 7, 2),
+the values the model returns (example above) -/
+example : (Spec.alloc exSh 0, Spec.alloc exSh 1, Spec.alloc exSh 2) = (1, 7, 2) := by decide +kernel
+
+example : FairAlloc exSh (Spec.alloc exSh) :=
+  Spec.alloc_fair exSh exSh_wf exSh_wfv
+    (by intro c hc; simp [exSh] at hc; rcases hc with rfl | rfl <;> simp [exSh])
 
 /-! ### BMF: predicate ⇒ property -/
 
